@@ -265,3 +265,8 @@ func (h *H) Log(label string, v any) { fmt.Printf("VRT-LOG %s=%v\n", label, v) }
 // Region names a set of inputs (a predicate over the harness inputs) that a committed
 // known-findings entry refers to by id. No effect natively.
 func (h *H) Region(id string, c bool) {}
+
+// NoRace states that the concurrent tasks run so far had no data race. Under the engine the
+// recorded read/write sets of the tasks are compared; natively the replay runs under the Go
+// race detector (-race), which fails the test when it observes the race.
+func (h *H) NoRace(label string) {}
